@@ -336,7 +336,8 @@ def repair_case(case, ctx):
             keep.append(e)
         spec["edges"] = keep
         case.setdefault("_repaired", []).append("F-01c")
-    if "F-09b" in active and "spec" in case and same_pair_connected_twice_from_a_buffered_source(case):
+    if ("F-09b" in active and "spec" in case and same_pair_connected_twice_from_a_buffered_source(case)) or \
+            ("F-09g" in active and "spec" in case and same_pair_connected_twice_gamma_or_dde(case)):
         if not copied:
             case = copy.deepcopy(case)
         spec = case["spec"]
@@ -412,6 +413,26 @@ def same_pair_connected_twice_from_a_buffered_source(case):
             buffered.add((_merged_node_key(spec, _node(s), vec), _opk(spec, s, vec), _var(s)))
     for (s, t), v in pairs.items():
         if len(v) >= 2 and (_merged_node_key(spec, _node(s), vec), _opk(spec, s, vec), _var(s)) in buffered:
+            return True
+    return False
+
+
+@predicate("F-09g")
+def same_pair_connected_twice_gamma_or_dde(case):
+    """>=2 edges between the same source variable and the same target variable while the source variable (of the IR
+    node) has a delayed edge that is NOT realised by a discrete ring buffer: a gamma kernel (delay with spread, or
+    dde_approx) or, under an adaptive solver, a past() look-up.  (The discrete case was repaired: fixed F-09b.)"""
+    spec = case["spec"]
+    cfg = case.get("cfg", {})
+    vec = bool(cfg.get("vectorize"))
+    adaptive = bool(cfg.get("adaptive")) or str(cfg.get("solver", "")).startswith("scipy") or bool(cfg.get("dde_approx"))
+    pairs, special = {}, set()
+    for s, t, e in _abs_edges(spec):
+        pairs.setdefault((s, t), []).append(e)
+        if _delayed(e) and (adaptive or e.get("sp")):
+            special.add((_merged_node_key(spec, _node(s), vec), _opk(spec, s, vec), _var(s)))
+    for (s, t), v in pairs.items():
+        if len(v) >= 2 and (_merged_node_key(spec, _node(s), vec), _opk(spec, s, vec), _var(s)) in special:
             return True
     return False
 
